@@ -201,6 +201,18 @@ CHECKS = {
             'Trusted: vf/cold.py (pristine reference server), canonicalisation in cold.canon_outcome. Module-level registrations '
             'are of throw-away classes; meaningful registrations go to a per-history Glommer. Bounds: <= 12 steps, pool <= 4.',
             'DESIGN.md section 4 / C06'),
+    'C05': ('Hypothesis-generated spec shapes with one planted terminal failure and recovered failing branches before it; the '
+            'evaluation tree recorded through the scope[glom] extension point is the ground truth against which the parsed '
+            'trace (| depth markers) is checked rule by rule; widths 50..200',
+            'Generated-input search with structural oracles taken from the statement: header; root target first; one Spec line '
+            'per nesting level of the failing path, in order; the innermost failing spec shown with the target it received '
+            '(branch-aware); attempted branches of every branch point on the path shown with the error that ended them; no '
+            'Spec line for anything outside the failing path / its completed chain steps / its attempted branches (stale or '
+            'forgiven branches are visible because every leaf has a unique repr); no error printed more often than it occurred; '
+            'message ends with the original error; str(exc) stable; same structure and no over-long line at every width.',
+            'Trusted: the tracer installed via scope[glom] and the rules in check_trace(). This is a set of necessary conditions '
+            'derived from the statement, not a byte-exact renderer (DESIGN.md explains why). Bounds: depth <= 5.',
+            'DESIGN.md section 4 / C05'),
 }
 
 NOT_YET = 'check not built yet in this session (design in DESIGN.md section 4); will be claimed once its check is quiet on the unchanged tree'
